@@ -96,7 +96,17 @@ mod imp {
         if rem != q[k..] {
             l.violation(mk("wrong_salts", "c16_queue_remainder", format!("left in SALTS {:?} expected {:?}", rem, &q[k..])));
         }
-        // (2) reproducible
+        // (2) reproducible — also when one issuer instance issues the same thing twice
+        {
+            let mut issuer = drive::new_issuer(keys::issuer_enc(cfg.alg, 0), Some(cfg.alg.name()));
+            fill(&q);
+            let a = drive::issue(&mut issuer, u, strat, None, false, fmt);
+            fill(&q);
+            let b = drive::issue(&mut issuer, u, strat, None, false, fmt);
+            if a != b || a != out1 {
+                l.violation(mk("not_reproducible", "c16_same_instance_twice", format!("first {:?} second {:?} fresh {:?}", a.as_ok().map(|s| s.len()), b.as_ok().map(|s| s.len()), out1.as_ok().map(|s| s.len()))));
+            }
+        }
         fill(&q);
         let out2 = pipeline::issue_raw(u, strat, &cfg);
         if out1 != out2 {
